@@ -251,6 +251,16 @@ CLAIMED = {
              "are gone (EOF on an inherited liveness pipe) the pipe must hold exactly N tokens.",
         technique="Coq proof (invariant over all interleavings of wild steps and environment steps) + runs of the real binary under a real jobserver",
         design_ref="DESIGN.md §3 C35"),
+    "C26": dict(
+        text="S1: work items report errors and warnings that depend on the item alone; a schedule is a permutation of the items; what wild prints is a function of the arrival sequence. Theorems: "
+             "sorting the arrived errors by message and reporting the first (layout traversal, symbol resolution) or all (duplicate symbols) gives the same result for every permutation, and it is "
+             "the least message; keeping one result per group and taking the first error in input order (write phase, symbol loading) does not see the schedule; the warnings form the same "
+             "multiset. The arrival-order reporters the code had before (errors.pop(), ArrayQueue(1), rayon try_for_each / collect into Result) are refuted.",
+        note="Partial: that an item's own reports do not depend on the schedule is assumed; only the error sites the generator reaches are tied (see trusted base). Tie: failing links with several "
+             "independent problems of one class in different files under thread counts 1..16 x groupings x scheduler perturbation seeds; one distinct stderr per case and grouping; the message "
+             "printed is the one the model selects.",
+        technique="Coq proof (permutation invariance of sorted reporters) + differential runs of the real binary across thread counts, groupings and perturbed schedules",
+        design_ref="DESIGN.md §3 C26"),
     "C10": dict(
         text="S1: Gallina model of what wild writes for unwinding (an FDE is kept iff the section its pc-begin points into was loaded and is not empty; one search-table entry per kept FDE with "
              "hdr-relative signed start and FDE pointer; the table sorted by the signed start) and of the consumer (the last entry with start <= pc, then the range check — what libgcc's binary "
